@@ -79,6 +79,15 @@ func (r *replica) updateLatestOffset(offset int64) (updated bool) {
 	return
 }
 
+// resetLatestOffset sets the replica's latest log offset unconditionally. This
+// is used when a new leader term starts and what was known about the replica
+// in an earlier term no longer applies.
+func (r *replica) resetLatestOffset(offset int64) {
+	r.mu.Lock()
+	r.offset = offset
+	r.mu.Unlock()
+}
+
 // getLatestOffset returns the replica's latest log offset.
 func (r *replica) getLatestOffset() int64 {
 	r.mu.RLock()
@@ -865,7 +874,17 @@ func (p *partition) becomeLeader(epoch uint64) error {
 		// Also update the protobuf ISR list for persistence.
 		p.Isr = append(p.Isr, p.srv.config.Clustering.ServerID)
 	}
-	rep.updateLatestOffset(p.log.NewestOffset())
+	// Replica offsets are only meaningful within one leader term. If this
+	// server led the partition before without restarting in between, the
+	// offsets it tracked then may be ahead of what the replicas (including
+	// this one) hold now, since followers truncate their logs when the leader
+	// changes. Forget them and let the followers report again.
+	for id, r := range p.isr {
+		if id != p.srv.config.Clustering.ServerID {
+			r.resetLatestOffset(-1)
+		}
+	}
+	rep.resetLatestOffset(p.log.NewestOffset())
 
 	// Start message processing loop.
 	recvChan := make(chan *nats.Msg, recvChannelSize)
